@@ -122,3 +122,61 @@ def dbl_bits(x):
     return struct.unpack('<Q', struct.pack('<d', float(x)))[0]
 def bits_dbl(u):
     return struct.unpack('<d', struct.pack('<Q', u))[0]
+
+# ---------------------------------------------------------------- trees in the drivers' token format
+T_FALSE, T_TRUE, T_NULL, T_NUMBER, T_STRING, T_ARRAY, T_OBJECT, T_RAW = 1, 2, 4, 8, 16, 32, 64, 128
+F_REF, F_CONST = 256, 512
+INT_MAX, INT_MIN = 2147483647, -2147483648
+
+def sat_int(x):
+    x = float(x)
+    if x != x: return INT_MIN
+    if x >= INT_MAX: return INT_MAX
+    if x <= INT_MIN: return INT_MIN
+    return int(x)
+
+def dtok(x):
+    x = float(x)
+    return 'nan' if x != x else '%016x' % dbl_bits(x)
+
+def htok(s):
+    if s is None: return '-'
+    b = s if isinstance(s, (bytes, bytearray)) else s.encode('utf-8')
+    return b.hex() if b else '='
+
+def node_tokens(ty, vs=None, vi=0, vd=0.0, key=None, children=()):
+    t = ['N', str(ty), htok(vs), str(vi), dtok(vd), htok(key), str(len(children))]
+    for c in children: t += c
+    return t
+
+def value_tokens(v, key=None, flags=0):
+    """tokens of the tree the construction API builds for a python-side value"""
+    if v is None: return node_tokens(T_NULL | flags, key=key)
+    if v is True: return node_tokens(T_TRUE | flags, key=key)
+    if v is False: return node_tokens(T_FALSE | flags, key=key)
+    if isinstance(v, (int, float)): return node_tokens(T_NUMBER | flags, vi=sat_int(v), vd=float(v), key=key)
+    if isinstance(v, (str, bytes)): return node_tokens(T_STRING | flags, vs=v, key=key)
+    if isinstance(v, Obj): return node_tokens(T_OBJECT | flags, key=key, children=[value_tokens(e, key=k) for k, e in v])
+    return node_tokens(T_ARRAY | flags, key=key, children=[value_tokens(e) for e in v])
+
+def all_paths(v, here=()):
+    yield here
+    if isinstance(v, Obj):
+        for i, (k, e) in enumerate(v): yield from all_paths(e, here + (i,))
+    elif isinstance(v, list):
+        for i, e in enumerate(v): yield from all_paths(e, here + (i,))
+
+def pstr(path):
+    return 'NULL' if path is None else 'P' + '.'.join(str(i) for i in path)
+
+def strip_suffix(out):
+    """drop the allocator report appended by the implementation driver"""
+    toks = out.split(' ')
+    return ' '.join(t for t in toks if not (t.startswith('live=') or t == 'SPECDIFF'))
+
+def alloc_problem(out):
+    for t in out.split(' '):
+        if t.startswith('live=') and t != 'live=0': return 'allocator imbalance after the call (%s)' % t
+        if t.startswith('DOUBLEFREE') or t.startswith('FOREIGNFREE') or t == 'FOREIGNDAMAGED': return 'allocator misuse: ' + t
+        if t == 'LINKS=BAD' or t == 'ROOTLINKS': return 'sibling chain inconsistent after the call (%s)' % t
+    return None
